@@ -958,12 +958,12 @@ def run_samplers(case, ctx):
 
 
 SUBCHECKS = {
-    "iso": Given(iso_strategy, run_iso, quick=600, thorough=20000),
-    "swizzle": Given(swizzle_strategy, run_swizzle, quick=600, thorough=20000),
-    "slice": Given(slice_strategy, run_slice, quick=600, thorough=20000),
-    "clamp": Given(clamp_strategy, run_clamp, quick=1200, thorough=50000),
-    "cyl": Given(cyl_strategy, run_cyl, quick=2000, thorough=80000),
-    "periodic": Given(periodic_strategy, run_periodic, quick=3000, thorough=160000),
-    "mask": Given(mask_strategy, run_mask, quick=1200, thorough=50000),
-    "samplers": Given(samplers_strategy, run_samplers, quick=1600, thorough=60000),
+    "iso": Given(iso_strategy, run_iso, quick=600, thorough=15000),
+    "swizzle": Given(swizzle_strategy, run_swizzle, quick=600, thorough=15000),
+    "slice": Given(slice_strategy, run_slice, quick=600, thorough=15000),
+    "clamp": Given(clamp_strategy, run_clamp, quick=1200, thorough=40000),
+    "cyl": Given(cyl_strategy, run_cyl, quick=2000, thorough=60000),
+    "periodic": Given(periodic_strategy, run_periodic, quick=3000, thorough=120000),
+    "mask": Given(mask_strategy, run_mask, quick=1200, thorough=40000),
+    "samplers": Given(samplers_strategy, run_samplers, quick=1600, thorough=45000),
 }
